@@ -27,13 +27,13 @@ def child_setup(env):
         objs["lk"] = lock.ParallelMailboxLock(objs["lf"], no)
         return True
 
-    def do_enter():
-        state["task"] = loop.create_task(objs["lk"].__aenter__())
-        return do_poll()
+    def do_enter(slot=0):
+        state[slot] = loop.create_task(objs["lk"].__aenter__())
+        return do_poll(slot)
 
-    def do_poll():
+    def do_poll(slot=0):
         env["pump"](6)
-        t = state["task"]
+        t = state[slot]
         if not t.done():
             return "blocked"
         t.result()
@@ -72,6 +72,9 @@ class C15(Check):
             {"kind": "B", "n": 2, "window": True, "script": [(1, "enter"), (1, "send"), (1, "exit"), (0, "init"), (0, "enter"), (0, "send"), (0, "exit")]},
             {"kind": "B", "n": 2, "window": True, "script": [(1, "enter"), (1, "send"), (1, "send"), (1, "exit"), (0, "init"), (1, "enter"), (1, "send"), (1, "exit")]},
             {"kind": "B", "n": 2, "window": False, "script": [(0, "enter"), (1, "enter"), (0, "send"), (0, "exit"), (1, "poll"), (1, "send"), (1, "exit")]},
+            {"kind": "B", "n": 2, "slots": 2, "window": False,
+             "script": [(0, "enter", 0), (0, "enter", 1), (1, "enter", 0), (0, "send", 0), (0, "exit", 0), (0, "poll", 1), (1, "poll", 0),
+                        (0, "send", 1), (1, "send", 0), (0, "exit", 1), (1, "exit", 0)]},
         ]
 
     def gen_cases(self):
@@ -103,6 +106,14 @@ class C15(Check):
                 # the harness resolves want->in when the real call reports "entered"
                 st[p] = {"want": "want?", "idle": "idle"}.get(st[p], st[p])
             out.append({"kind": "B", "n": n, "window": window, "script": script, "dynamic": True})
+        # mixed: several tasks per process AND several processes on one terminal
+        for _ in range(25 if self.tier == "quick" else 250):
+            n, slots = 2, 2
+            script = []
+            for _ in range(rng.randint(10, 30)):
+                p, sl = rng.randrange(n), rng.randrange(slots)
+                script.append((p, rng.choice(["enter", "poll", "poll", "send", "send", "exit"]), sl))
+            out.append({"kind": "B", "n": n, "slots": slots, "window": False, "script": script})
         return out
 
     # ------------------------------------------------------------------ A
@@ -173,7 +184,24 @@ class C15(Check):
                 if r[0] != "ok":
                     return Err(7, f"open failed in participant {k}: {r}")
             opened = [False] * n
-            for p, cmd in case["script"]:
+            slots = case.get("slots", 1)
+            sst = {}                     # (p, slot) -> idle / want / in
+            def refresh(p, skip=None):
+                """any waiting task of process p may have got in while the child ran its loop"""
+                for (q, sl), v in list(sst.items()):
+                    if q == p and v == "want" and sl != skip:
+                        r2 = kids[p].call("poll", sl)
+                        if r2[0] == "ok" and r2[1] == "entered":
+                            evs.extend([("lock", p), ("read", p)])
+                            sst[(p, sl)] = "in"
+                        elif r2[0] != "ok":
+                            return Err(5, f"participant {p} failed to take the mailbox lock: {r2[1]}: {r2[2]}")
+                return None
+
+            for entry in case["script"]:
+                p, cmd = entry[0], entry[1]
+                slot = entry[2] if len(entry) > 2 else 0
+                st[p] = sst.get((p, slot), "idle")
                 if cmd == "init":
                     if inited:
                         continue
@@ -189,9 +217,9 @@ class C15(Check):
                     kids[p].call("newlock", 1003)
                     opened[p] = True
                 if st[p] == "idle" and cmd in ("enter", "poll"):
-                    r = kids[p].call("enter")
+                    r = kids[p].call("enter", slot)
                 elif st[p] == "want" and cmd in ("enter", "poll"):
-                    r = kids[p].call("poll")
+                    r = kids[p].call("poll", slot)
                 elif st[p] == "in" and cmd == "send":
                     r = kids[p].call("send")
                     if r[0] == "ok":
@@ -205,7 +233,10 @@ class C15(Check):
                     if r[0] != "ok":
                         return Err(5, f"release failed in participant {p}: {r[1]} {r[2]}")
                     evs += [("write", p), ("unlock", p)]
-                    st[p] = "idle"
+                    sst[(p, slot)] = "idle"
+                    err = refresh(p)
+                    if err is not None:
+                        return err
                     continue
                 else:
                     continue
@@ -215,14 +246,20 @@ class C15(Check):
                     return Err(7, f"unexpected reply {r}")
                 if r[1] == "entered":
                     evs += [("lock", p), ("read", p)]
-                    st[p] = "in"
+                    sst[(p, slot)] = "in"
                 else:
-                    evs.append(("lockfail", p))
-                    st[p] = "want"
+                    sst[(p, slot)] = "want"
+                    n_before = len(evs)
+                    err = refresh(p, skip=slot)
+                    if err is not None:
+                        return err
+                    if len(evs) == n_before and not any(v == "in" for (q, _), v in sst.items() if q == p):
+                        evs.append(("lockfail", p))
             if not inited:
                 r = kids[0].release()
                 evs.append("init")
             byte = kids[1].call("peek", 3)
+            st = ["in" if any(v == "in" for (q, _), v in sst.items() if q == p) else "idle" for p in range(n)]
             return {"evs": evs, "trace": trace, "st": st, "byte": byte[1] if byte[0] == "ok" else None}
         finally:
             for k in kids:
